@@ -120,6 +120,12 @@ def ref_columns(formula, tr, efr, levels=None):
         return R.design("f1", R.Factor(PASS_THROUGH[formula], "A", "cat", LA), full_rank=efr)
     if formula == "A":
         return R.design("f1", fA, full_rank=efr)
+    if formula == "A + a":
+        return R.design("f1+f2", fA, fa, full_rank=efr)
+    if formula == "0 + A + a":
+        return R.design("f1+f2", fA, fa, full_rank=efr, intercept=False)
+    if formula == "0 + A":      # a left-hand side has no intercept
+        return R.design("f1", fA, full_rank=efr, intercept=False)
     if formula == "a":
         return R.design("f1", fa, full_rank=efr)
     if formula == "A:a":
@@ -163,15 +169,29 @@ def to_matrix(m):
     return [[float(v) for v in row] for row in arr.tolist()]
 
 
-def apply_spec(spec, frame, keep=None):
+ROUTES = ["spec.get_model_matrix(frame)", "materializer object used before"]
+
+
+def apply_spec(spec, frame, keep=None, route=ROUTES[0]):
     """-> outcome: ('OK', names, matrix, n DataMismatchWarnings) | ('ERR', exception class name, message)
-    keep: a list that receives the ModelSpec attached to the resulting matrix"""
+    keep: a list that receives the ModelSpec attached to the resulting matrix
+    route 'materializer object used before': ONE PandasMaterializer(frame) first builds the plain formula 'A + a' on
+    the follow-up frame (which evaluates and caches the factors from that frame) and is then given the recorded spec --
+    the recorded spec must be honoured exactly as on a fresh materializer"""
     from formulaic.errors import DataMismatchWarning
 
     with warnings.catch_warnings(record=True) as rec:
         warnings.simplefilter("always")
         try:
-            m = spec.get_model_matrix(frame)
+            if route == ROUTES[0]:
+                m = spec.get_model_matrix(frame)
+            else:
+                from formulaic.materializers import PandasMaterializer
+
+                used = PandasMaterializer(frame)
+                used.get_model_matrix("A + a", output=str(spec.output))
+                rec[:] = []  # only what the application of the recorded spec announces counts
+                m = used.get_model_matrix(spec)
         except Exception as e:  # noqa: BLE001 - classified by the caller
             return ("ERR", type(e).__name__, str(e)[:200])
         try:
@@ -278,18 +298,20 @@ def drv_followup(c, ctx, col):
     """depth 1: fit, apply one follow-up"""
     formula, efr, out, tr = choose_config(c, ctx)
     ev = choose_event(c, ctx, formula, "ev1")
+    route = c.pick(ctx.get("routes", ROUTES[:1]))
     spec, train_names = fit_checked(col, formula, tr, efr, out)
     col.state(spec_digest(spec))
     frame, rows = followup(tr, ev)
     want, nontrivial = expectation(formula, tr, efr, ev, rows)
-    outcome = apply_spec(spec, frame)
+    outcome = apply_spec(spec, frame, route=route)
     col.state(spec_digest(spec))
     if nontrivial:
         col.interesting()
     col.sample({"formula": formula, "ensure_full_rank": efr, "output": out, "train_A": tr, "followup": ev_str(ev),
                 "expected": want[0] if want[0] == "ERR" else {"columns": want[1], "rows": want[2], "warning": want[3]}})
     sig = judge(outcome, want, train_names)
-    key = "followup :: %s efr=%s out=%s train=%r apply %s" % (formula, efr, out, tr, ev_str(ev))
+    key = "followup :: %s efr=%s out=%s train=%r apply %s%s" % (
+        formula, efr, out, tr, ev_str(ev), "" if route == ROUTES[0] else " (via a materializer object used before)")
     if sig:
         col.count("where[%s | %s efr=%s %s]" % (sig, formula, efr, "A<-" + ev[1] if ev[0] == "A" else "a<-" + ev[1]))
         col.violation(key, {"formula": formula, "ensure_full_rank": efr, "output": out, "train_A": tr,
@@ -394,6 +416,60 @@ def drv_representations(c, ctx, col):
                                         declared, B, FOLLOW_a[:m])}, sig=sig)
         return
     col.count("agree:" + ("unseen-level" if want[3] else "compatible"))
+
+
+# ---------------------------------------------------------------------------------------------------------------
+# structured formulas whose parts share the factor A: every LEAF spec applied on its own
+
+STRUCTURED = {
+    # formula -> [(leaf label, accessor on the ModelMatrices, the leaf's own formula as known to ref_columns)]
+    "A + a | A:a": [("[0]", lambda mm: mm[0], "A + a"), ("[1]", lambda mm: mm[1], "A:a")],
+    "A ~ 0 + A + a": [("lhs", lambda mm: mm.lhs, "0 + A"), ("rhs", lambda mm: mm.rhs, "0 + A + a")],
+}
+for _f in ("A + a", "0 + A + a"):
+    VARIES[_f] = ["A", "a"]
+VARIES["0 + A"] = ["A"]
+
+
+def drv_structured(c, ctx, col):
+    """depth 1: fit a structured formula as a whole, then apply ONE of its leaf specs on its own to a follow-up"""
+    from formulaic import model_matrix
+
+    formula = c.pick(sorted(STRUCTURED))
+    efr = not c.flag()
+    out = c.pick(ctx["outputs"])
+    tr = c.pick(ctx["trainings"])
+    label, access, leaf_formula = c.pick(STRUCTURED[formula])
+    ev = choose_event(c, ctx, leaf_formula, "ev1")
+    route = c.pick(ctx.get("routes", ROUTES[:1]))
+    mm = model_matrix(formula, training_frame(tr), ensure_full_rank=efr, output=out)
+    spec = access(mm).model_spec
+    train_names = [str(x) for x in spec.column_names]
+    ref_names, _ = R.evaluate(ref_columns(leaf_formula, tr, efr), [])
+    if train_names != ref_names:
+        col.count("fit-structure-differs-from-reference (skipped)")
+        raise Skip()
+    col.state(spec_digest(spec))
+    frame, rows = followup(tr, ev)
+    want, nontrivial = expectation(leaf_formula, tr, efr, ev, rows)
+    outcome = apply_spec(spec, frame, route=route)
+    if nontrivial:
+        col.interesting()
+    col.sample({"formula": formula, "leaf": label, "ensure_full_rank": efr, "output": out, "train_A": tr,
+                "followup": ev_str(ev), "route": route})
+    sig = judge(outcome, want, train_names)
+    key = "structured :: %s leaf=%s efr=%s out=%s train=%r apply %s%s" % (
+        formula, label, efr, out, tr, ev_str(ev), "" if route == ROUTES[0] else " (via a materializer object used before)")
+    if sig:
+        col.count("where[%s | %s leaf %s efr=%s %s]" % (sig, formula, label, efr, ev[0] + "<-" + ev[1]))
+        col.violation(key, {"formula": formula, "leaf": label, "leaf_formula": leaf_formula, "ensure_full_rank": efr,
+                            "output": out, "train_A": tr, "followup": ev_str(ev), "route": route,
+                            "training_columns": train_names, "got": outcome, "want": want,
+                            "repro": "mm = model_matrix(%r, <training frame of %s>); <mm leaf %s>.model_spec.get_model_matrix(<follow-up>): %s"
+                                     % (formula, repro(leaf_formula, tr, efr, out, [])[:0] or tr, label,
+                                        repro(leaf_formula, tr, efr, out, [ev]).split("; ", 2)[-1])}, sig=sig)
+        return
+    col.count("agree:" + ("error" if want[0] == "ERR" else ("unseen-level" if want[3] else "compatible")))
 
 
 def drv_history(c, ctx, col):
@@ -512,7 +588,7 @@ def contexts(tier, seed):
 
 def describe(ctx):
     trs = ctx["trainings"]
-    return {"formulas": ctx.get("formulas", FORMULAS), "outputs": ctx["outputs"],
+    return {"formulas": ctx.get("formulas", FORMULAS), "outputs": ctx["outputs"], "routes": ctx.get("routes", ROUTES[:1]),
             "second_application_via": ["training spec", "spec attached to the first follow-up matrix"] if ctx.get("chain")
             else ["training spec"],
             "training_A_columns": {o: v for o, v in trs.items()} if isinstance(trs, dict) else trs,
@@ -525,7 +601,16 @@ def subchecks(tier, seed):
     selftest()
     f, h = contexts(tier, seed)
     f["formulas"] = FORMULAS + list(PASS_THROUGH)
+    f["routes"] = ROUTES
     subs = [Sub("followup", drv_followup, f, shard_depth=4, bounds=describe(f))]
+    st = {"outputs": ["pandas"] if tier == "quick" else ["pandas", "numpy", "sparse"],
+          "trainings": [["y", "x"], ["z", "y", "x"]] if tier == "quick" else LEVEL_SETS,
+          "ev1": f["ev1"] if tier != "quick" else {"A": text_events("A", "xyzw", 2) + A_NUMERIC[:2], "a": f["ev1"]["a"]},
+          "routes": ROUTES}
+    subs.append(Sub("structured", drv_structured, st, shard_depth=5,
+                    bounds={"formulas": sorted(STRUCTURED), "leaves": {k: [l[0] for l in v] for k, v in STRUCTURED.items()},
+                            "outputs": st["outputs"], "training_A_columns": st["trainings"], "routes": ROUTES,
+                            "followups": {k: len(v) for k, v in st["ev1"].items()}, "ensure_full_rank": [True, False]}))
     quick = tier == "quick"
     r = {"outputs": ["pandas"] if quick else ["pandas", "sparse"],
          "trainings": [["y", "x"], ["z", "y", "x"]] if quick else [["y", "x"], ["z", "y"], ["z", "y", "x"]],
